@@ -8,7 +8,9 @@ import (
 	"errors"
 	"fmt"
 	"math/big"
+	"net/http"
 	"sort"
+	"strings"
 	"sync"
 	"time"
 
@@ -50,7 +52,7 @@ var CRLBehaviours = []string{
 }
 
 // CRLHTTPOnly are behaviours that exist only on the HTTP route.
-var CRLHTTPOnly = []string{"http-404", "http-500", "garbage", "empty", "truncated", "delta-unreachable", "delta-garbage", "err", "timeout", "body-err"}
+var CRLHTTPOnly = []string{"http-404", "http-500", "garbage", "empty", "truncated", "delta-unreachable", "delta-garbage", "err", "timeout", "body-err", "redirect-loop", "redirect-endless"}
 
 // CRLClass gives the reference class of a behaviour.
 func CRLClass(beh string) string {
@@ -185,7 +187,7 @@ func (k *Kit) buildCRL(beh string, slot int) *CRLSet {
 		return &CRLSet{Beh: beh, Class: CRLBad, BaseDER: src.BaseDER, Bundle: src.Bundle}
 	}
 	switch beh {
-	case "fetch-fail", "http-404", "http-500", "err", "timeout", "garbage", "empty", "oversize":
+	case "fetch-fail", "http-404", "http-500", "err", "timeout", "garbage", "empty", "oversize", "redirect-loop", "redirect-endless":
 		return set
 	}
 	serial := k.Cert.SerialNumber
@@ -552,6 +554,22 @@ func (k *Kit) CRLHandlers(net *netsim.Sim, slot int, beh string) {
 		return
 	case "garbage":
 		net.Handle(basePath, mk(netsim.Reply{Body: []byte("-----BEGIN X509 CRL-----\nnope\n")}, "base"))
+		return
+	case "redirect-loop", "redirect-endless":
+		// every request is answered - with a redirect: to the same URL, or to an
+		// ever new one (same route, next ?hop=)
+		endless := beh == "redirect-endless"
+		net.Handle(basePath, func(rq *netsim.Request) netsim.Reply {
+			loc := "http://" + basePath
+			if endless {
+				sep := "?"
+				if strings.Contains(basePath, "?") {
+					sep = "&"
+				}
+				loc = fmt.Sprintf("http://%s%shop=%d", basePath, sep, rq.Nth+1)
+			}
+			return netsim.Reply{Status: 302, Header: http.Header{"Location": []string{loc}}, Class: "base:" + beh, Meta: cls}
+		})
 		return
 	case "oversize":
 		// a genuine, clean CRL followed by padding up to one byte more than the
